@@ -200,6 +200,31 @@ Unresolved(E, pol, n, in) ==
   ELSE ExpList(E, pol, {}, E[n].ch, in, <<>>, "lenient").cur.un
 
 (***************************************************************************)
+(* Element OBJECT SHARING.  ch lists may name the same id more than once   *)
+(* (one SetContext object in two Split branches, a nested Sequence object  *)
+(* placed twice): the tree of POSITIONS is what the statement speaks       *)
+(* about.  InsOf = the set of contexts the fold hands to the occurrences   *)
+(* of object x at or below r (one per occurrence; each is the fold over    *)
+(* that occurrence's own prefix).  Walk(..).acc keeps only the last one.   *)
+(***************************************************************************)
+RECURSIVE InsList(_, _, _, _, _)
+InsBranch(E, pol, b, cur, x) ==
+  (IF b = x THEN {cur} ELSE {}) \cup (IF E[b].k = "acc" THEN {} ELSE InsList(E, pol, E[b].ch, cur, x))
+InsList(E, pol, ch, cur, x) ==
+  IF ch = <<>> THEN {}
+  ELSE LET e == Head(ch)
+           inner == IF IsSeqLike(E[e]) THEN InsList(E, pol, E[e].ch, cur, x)
+                    ELSE IF E[e].k = "split"
+                         THEN UNION {InsBranch(E, pol, E[e].ch[j], cur, x) : j \in 1..Len(E[e].ch)}
+                    ELSE {}
+           nxt == ExpList(E, pol, {}, <<e>>, cur, <<>>, "strict").cur
+       IN (IF e = x THEN {cur} ELSE {}) \cup inner \cup InsList(E, pol, Tail(ch), nxt, x)
+InsOf(E, pol, r, c, x) == InsList(E, pol, <<r>>, Cur(c), x)
+\* number of positions at which objects occur as children
+RECURSIVE SumCh(_)
+SumCh(s) == IF s = <<>> THEN 0 ELSE Len(Head(s).ch) + SumCh(Tail(s))
+
+(***************************************************************************)
 (* Expected observations of one element given In = acc[i].                 *)
 (* "free" = the statement does not fix it.                                 *)
 (***************************************************************************)
